@@ -389,3 +389,31 @@ def node_of(E, value):
         if n.nparams == 0 and n.kind == "sum" and z3.eq(n.vf(), z):
             return n
     return None
+
+
+def node_of_app(E, value):
+    """the sum node whose value function is applied at the head of `value`"""
+    z = C.to_z3(value)
+    if not z3.is_app(z) or z.decl().kind() != z3.Z3_OP_UNINTERPRETED:
+        return None
+    for n in E.st.sums:
+        if n.kind != "sum":
+            continue
+        probe = T._apply(n.vf, [z3.Int(f"np!{k}") for k in range(n.nparams)])
+        if z3.is_app(probe) and probe.decl().eq(z.decl()):
+            return n
+    return None
+
+
+def lemma_sum_congr_nodes(E, name, node_a, node_b, using=None):
+    """SumLemmas.sum_congr_range: two sums over the same range with pointwise
+    equal terms are equal (for every value of the parameters)"""
+    if node_a.nparams != node_b.nparams or not T.dim_eq(node_a.dim, node_b.dim):
+        raise Unsupported("lemma_sum_congr_nodes: different parameter counts / ranges")
+    k = node_a.nparams
+    dz = T.dim_z(node_a.dim)
+    E.st.oblige_forall(f"{name}.premise_terms_equal", [INT] * (k + 1), lambda *a: z3.Implies(z3.And(a[-1] >= 0, a[-1] < dz), node_a.body(*a) == node_b.body(*a)), hint="p", using=using)
+    if k == 0:
+        E.assume(Sym(node_a.vf() == node_b.vf()))
+    else:
+        E.st.assume_forall([INT] * k, lambda *p: T._apply(node_a.vf, p) == T._apply(node_b.vf, p), f"{name}.equal")
